@@ -47,11 +47,12 @@ pub enum Kind {
     P,
     DB,
     NT,
+    HSl,
     Set,
 }
 
 impl Kind {
-    pub const ALL: [Kind; 19] = [
+    pub const ALL: [Kind; 20] = [
         Kind::D,
         Kind::R,
         Kind::L,
@@ -70,10 +71,11 @@ impl Kind {
         Kind::P,
         Kind::DB,
         Kind::NT,
+        Kind::HSl,
         Kind::Set,
     ];
     pub fn has_tok(self) -> bool {
-        matches!(self, Kind::D | Kind::R | Kind::L | Kind::LS | Kind::RB | Kind::SH | Kind::TSH | Kind::Dyn | Kind::P | Kind::DB | Kind::NT)
+        matches!(self, Kind::D | Kind::R | Kind::L | Kind::LS | Kind::RB | Kind::SH | Kind::TSH | Kind::Dyn | Kind::P | Kind::DB | Kind::NT | Kind::HSl)
     }
     pub fn needs_trace(self) -> bool {
         !matches!(self, Kind::L | Kind::LS | Kind::Str | Kind::TStr | Kind::NT)
